@@ -64,6 +64,11 @@ func init() {
 	for _, id := range []string{"C01", "C02", "C03", "C04", "C05", "C06", "C07", "C08", "C09", "C10", "C11", "C14", "C16", "C17", "C20"} {
 		props[id] = simProp("Test"+id, q, t)
 	}
+	pureAssume := []string{"the reference models in harness/refmodel are correct (they are written from the property text and are a few lines each)"}
+	props["C12"] = propCfg{Pkg: "./pure", Test: "TestC12", ExtraRun: "^TestC12Exhaustive$", Level: "exploration",
+		Quick: tierCfg{Shards: 4, Checks: 20000}, Thorough: tierCfg{Shards: 16, Checks: 1000000}, Assumptions: pureAssume}
+	props["C13"] = propCfg{Pkg: "./pure", Test: "TestC13", ExtraRun: "^TestC13Closure$", Level: "exploration",
+		Quick: tierCfg{Shards: 8, Checks: 2500}, Thorough: tierCfg{Shards: 16, Checks: 100000}, Assumptions: pureAssume}
 }
 
 type shardReport struct {
@@ -396,6 +401,7 @@ func tail(s string, n int) string {
 func mergeEvidence(prop, tier string, seed int, cfg propCfg, tc tierCfg, results []*shardResult, extra []*shardReport, violations int, wall time.Duration) map[string]any {
 	evals, nontrivial, excluded, aborted := 0, 0, 0, 0
 	digests := map[uint64]bool{}
+	distinctExtra := 0
 	classes := map[string]int{}
 	casesWith := map[string]int{}
 	var samples []any
@@ -431,6 +437,12 @@ func mergeEvidence(prop, tier string, seed int, cfg propCfg, tc tierCfg, results
 			}
 		}
 		for k, v := range rep.Extra {
+			if k == "distinct_count" {
+				if f, ok := v.(float64); ok {
+					distinctExtra += int(f)
+				}
+				continue
+			}
 			extraInfo[k] = v
 			if k == "exhaustive" {
 				if b, ok := v.(bool); ok && b {
@@ -463,7 +475,7 @@ func mergeEvidence(prop, tier string, seed int, cfg propCfg, tc tierCfg, results
 	}
 	cov := map[string]any{
 		"evaluations":            evals,
-		"distinct_nontrivial":    len(digests),
+		"distinct_nontrivial":    len(digests) + distinctExtra,
 		"nontrivial_cases":       nontrivial,
 		"rule":                   rule,
 		"samples":                samples,
